@@ -887,6 +887,9 @@ def seed_circuits(g: G.Gen):
                                           dg.Sdag(0), dg.CZ(0, 2), dg.Tdag(2), dg.Rz(1, Float(-0.7)), dg.I(1), dg.CNOT(2, 1), dg.Rx(2, Float(1.2)), dg.Rz(2, Float(0.0)),
                                           measure(1, Bit(0)), dg.Sdag(1), dg.Tdag(0), dg.CNOT(0, 2),
                                           dg.T(0), dg.T(0), dg.Rx(1, Float(math.pi / 4)), dg.Rx(1, Float(math.pi / 4)), dg.Y90(2), dg.X(2))})
+    # pairs whose fusion is a half-turn about an axis with negative components
+    out.append({"nq": 3, "nb": 1, "stmts": S(dg.S(0), dg.X(0), dg.H(1), dg.Y(1), dg.Z(2), dg.X90(2), dg.CNOT(0, 1), dg.T(0), dg.X(0), dg.mY90(1), dg.X(1), dg.CZ(1, 2),
+                                          dg.Y(2), dg.S(2), dg.Sdag(0), dg.Y(0))})
     return out
 
 def apply_pass(circ, p, state):
@@ -932,10 +935,11 @@ def check_C05(run: Run):
     L = run.n(2, 3)
     if run.quick():
         all2 = list(itertools.product(range(len(al)), repeat=2))
-        for sq in all2: seqs.append((seeds[-1], [al[j] for j in sq]))          # every pair on the rich seed
+        for sq in all2: seqs.append((seeds[-2], [al[j] for j in sq]))          # every pair on the rich seed
+        for d_ in O.DECOMPOSERS: seqs.append((seeds[-1], [("merge",), ("decompose", d_)]))
         rng.shuffle(all2)
         for i, sq in enumerate(all2[:run.n(90, 0)]): seqs.append((seeds[i % len(seeds)], [al[j] for j in sq]))
-        for _ in range(12): seqs.append((seeds[-1], [("merge",), ("map", "cycle"), ("decompose", rng.choice(["ZYZ", "XYX"])), ("merge",)]))
+        for _ in range(12): seqs.append((seeds[-2], [("merge",), ("map", "cycle"), ("decompose", rng.choice(["ZYZ", "XYX"])), ("merge",)]))
     else:
         for sd in seeds:
             for sq in itertools.product(range(len(al)), repeat=2): seqs.append((sd, [al[j] for j in sq]))
